@@ -33,3 +33,143 @@ def unseq(v):
     if isinstance(v, dict):
         return {k: unseq(x) for k, x in v.items()}
     return v
+
+
+# ------------------------------------------------------------------------------------------------ C19 / C18
+KINDS = '{"CHK", "LIT", "DIR2-CHK", "DIR2-LIT", "SSK", "MDMF", "DIR2", "DIR2-MDMF", "FUT", "FUTW", "FUTM"}'
+# the class of inputs on which the code deviates from the intent written in DirPack.tla (reported by C18)
+C18_CLASS = "ro_slot_known_writecap"
+
+
+def capstr(c):
+    return "none" if c["kind"] == "none" else "%s%s:%s" % (c["pfx"], c["kind"], c["lvl"])
+
+
+def given_str(g):
+    return "rw=%s,ro=%s" % (capstr(g["rw"]), capstr(g["ro"]))
+
+
+def gen_pack_cases(ctx, invs):
+    cfg = "SPECIFICATION Spec\nCONSTANTS\n  Kinds = %s\n" % KINDS + "".join("INVARIANT %s\n" % i for i in invs) + "CHECK_DEADLOCK FALSE\n"
+    namefile = os.path.join(ctx.workdir, "names.ndjson")
+    cases, r = ctx.gen("dir/GenDirPack", cfg, env={"NAME_FILE": namefile})
+    names = [json.loads(l) for l in open(namefile) if l.strip()]
+    ctx.constants["GEN"] = {"Kinds": KINDS, "cases": len(cases)}
+    return cases, [n for n in names if "raw" in n], [n for n in names if "first" in n]
+
+
+def compare_entry(exp, got, who):
+    """-> name of the first field of the `who` view that differs from the Spec's expectation, or None"""
+    x, g = exp[who], got[who]
+    if x["kept"] != g["kept"]:
+        return "kept"
+    if x["kept"] and x["n"] != g["n"]:
+        for f in ("known", "rw", "ro", "err", "mutable", "dir"):
+            if x["n"][f] != g["n"][f]:
+                return "node." + f
+    if g["kept"] and g["md"] != "md":
+        return "metadata"
+    return None
+
+
+def run_pack(ctx, pid, invs):
+    q = ctx.quick
+    c18 = pid == "C18"
+    ctx.rule = ("GEN: GenDirPack enumerates every (rw slot, ro slot) combination of caps of each kind with each prefix x directory kind, "
+                "with the Spec-computed node, pack status, stored ro field and unpacked nodes for write-cap and read-cap openers. "
+                "Each case is replayed with seeded concrete caps / Unicode names (5 name classes x foreign-writer flag) / nested JSON "
+                "metadata; real directories of 0-50 children are assembled from accepted cases. A case is non-trivial when the child is "
+                "not a plain immutable file cap given once (i.e. prefixes, both slots, mutable or unknown kinds are involved)")
+    ctx.assumptions += ["TLC and the CommunityModules", "the driver's table between the Spec's cap records and concrete cap strings, and its "
+                        "table of (decomposed, NFC) name pairs (checked against unicodedata at start)",
+                        "AES / hashing of the rw-cap superencryption are exercised but their strength is not judged",
+                        "1 storage server, k=n=1"]
+    cases, namecases, pairs = gen_pack_cases(ctx, invs)
+    ctx.exhaustive = True
+    reps = 6 if q else 40
+    inp = {"cases": cases, "namecases": namecases, "pairs": pairs}
+    obs = ctx.impl("harness/dir_driver.py", ["--mode", "c19cases", "--n", reps], input_obj=inp)
+    for o in obs:
+        c = cases[o["case"]]
+        plain = c["g"]["rw"]["kind"] == "none" and c["g"]["ro"]["pfx"] == "" and c["g"]["ro"]["kind"] in ("CHK", "LIT")
+        ctx.count(None if plain else "%s|%s|%s" % (given_str(c["g"]), c["dirkind"], json.dumps(o.get("name"))))
+        cls = c["cls"]
+        if cls == C18_CLASS and not c18:
+            continue            # judged by C18 (the deviation is an authority leak, not a round-trip failure)
+        ident = "%s:%s" % (cls or "case", c["dirkind"])
+        where = "%s in a %s directory" % (given_str(c["g"]), c["dirkind"])
+
+        def rep(field, what):
+            ctx.report("%s:%s" % (ident if cls else "case:" + field, field) if cls else "case:%s:%s" % (field, c["dirkind"]),
+                       "%s: %s" % (where, what), replay={"kind": "gen-case", "case": c, "observed": o})
+        if o["n"] != c["n"]:
+            rep("node", "create_from_cap gives %s, Spec %s" % (json.dumps(o["n"]), json.dumps(c["n"])))
+            if cls == C18_CLASS and o["pack"] == "ok":
+                if o.get("knows_w") or (o.get("r", {}).get("n", {}).get("rw", {}).get("kind", "none") != "none"):
+                    ctx.report("%s:leak" % cls, "%s: the directory plaintext holds the child's write-cap and a read-cap holder of the "
+                               "directory obtains a writeable node (reader view %s)" % (where, json.dumps(o.get("r"))),
+                               replay={"kind": "gen-case", "case": c, "observed": o})
+            continue
+        if o["pack"] != c["pack"]:
+            rep("pack", "packing answers %s, Spec %s" % (o["pack"], c["pack"]))
+            continue
+        if c["pack"] != "ok":
+            continue
+        nm = o["name"]
+        exp_name = [n for n in namecases if n["raw"] == nm["raw"] and n["foreign"] == nm["foreign"]][0]
+        if nm.get("stored") != exp_name["stored"]:
+            rep("stored_name", "stored name %r, Spec %r" % (nm.get("stored"), exp_name["stored"]))
+        elif (c["w"]["kept"] or c["r"]["kept"]) and nm.get("listed") != exp_name["listed"]:
+            rep("listed_name", "listed name %r for raw %r (foreign=%s), Spec %r" % (nm.get("listed"), nm["raw"], nm["foreign"], exp_name["listed"]))
+        if not c18 and o["stored_ro"] != c["stored_ro"]:
+            rep("stored_ro", "plaintext ro field %s, Spec %s" % (capstr(o["stored_ro"]), capstr(c["stored_ro"])))
+        if c18 and o["knows_w"] != c["knows_w"]:
+            rep("plaintext_leak", "the plaintext a read-cap holder can decrypt contains a write-cap / writekey of the child")
+        for who in (("r", "w") if c18 else ("w", "r")):
+            f = compare_entry(c, o, who)
+            if f:
+                rep("%s_view.%s" % ("writer" if who == "w" else "reader", f),
+                    "%s view after unpack: %s, Spec %s" % ("write-cap" if who == "w" else "read-cap", json.dumps(o[who]), json.dumps(c[who])))
+                break
+    ctx.sample({"given": given_str(cases[obs[7]["case"]]["g"]), "dirkind": cases[obs[7]["case"]]["dirkind"],
+                "spec": {k: cases[obs[7]["case"]][k] for k in ("pack", "stored_ro")}, "observed": {k: obs[7].get(k) for k in ("pack", "stored_ro", "name")}})
+
+    nd = 60 if q else 800
+    dirs = ctx.impl("harness/dir_driver.py", ["--mode", "c19dirs", "--n", nd], input_obj=inp)
+    for b in dirs:
+        ctx.count("dir|%s|%s|%d|%s" % (b["dirkind"], b["how"], b["n"], b["dircap"]) if b["n"] > 1 else None)
+        if b["bad"] >= 0:
+            want = cases[b["bad"]]["pack"]
+            if b["status"] != want:
+                ctx.report("dir:refusal:%s:%s" % (b["dirkind"], b["how"]),
+                           "a %s directory (%s) given %s among %d children answered %s, Spec %s" % (
+                               b["dirkind"], b["how"], given_str(cases[b["bad"]]["g"]), b["n"], b["status"], want),
+                           replay={"kind": "real-directory", "batch": b, "case": cases[b["bad"]]})
+            elif b["how"] == "set_children" and b.get("listed_names", {}).get("w", 0) != 0:
+                ctx.report("dir:refusal_not_atomic:%s" % b["dirkind"], "a refused set_children left %d entries behind" % b["listed_names"]["w"],
+                           replay={"kind": "real-directory", "batch": b})
+            continue
+        if b["status"] != "ok":
+            ctx.report("dir:create:%s:%s" % (b["dirkind"], b["how"]), "creating a directory of accepted children failed: %s" % b["status"],
+                       replay={"kind": "real-directory", "batch": b})
+            continue
+        for e in b["entries"]:
+            c = cases[e["case"]]
+            for who in (("r", "w") if c18 else ("w", "r")):
+                f = compare_entry(c, e, who)
+                if f:
+                    ctx.report("dir:%s_view.%s:%s" % ("writer" if who == "w" else "reader", f, b["dirkind"]),
+                               "real %s directory (%s, %d children): child %s listed through the %s as %s, Spec %s" % (
+                                   b["dirkind"], b["how"], b["n"], given_str(c["g"]), "write-cap" if who == "w" else "read-cap",
+                                   json.dumps(e[who]), json.dumps(c[who])),
+                               replay={"kind": "real-directory", "entry": e, "case": c, "batch": {k: v for k, v in b.items() if k != "entries"}})
+                    break
+        exp_n = len(b["entries"])
+        for who in ("w", "r"):
+            kept = sum(1 for e in b["entries"] if cases[e["case"]][who]["kept"])
+            if b["listed_names"][who] != kept:
+                ctx.report("dir:entry_count:%s" % b["dirkind"], "directory lists %d names through the %s view, Spec %d" % (b["listed_names"][who], who, kept),
+                           replay={"kind": "real-directory", "batch": b})
+    ok = [b for b in dirs if b["status"] == "ok" and b["entries"]]
+    if ok:
+        ctx.sample({"real_directory": {k: v for k, v in ok[0].items() if k != "entries"}, "first_entry": ok[0]["entries"][0]})
